@@ -9,7 +9,7 @@ CLAIMED = {
     # id: (technique, level text, level note, design ref)
     "C01": ("bounded-exhaustive runtime oracle: independent index-map monitor on real calls",
             "Every shape of the tier's bounded space x every mode/skip/ordered matricize split x 10 dtypes x 6 memory layouts (plus sampled splits of "
-            "orders 6-10, reused shape lists and repeat calls after in-place edits of the same array object) is "
+            "orders 6-24, reused shape lists, repeat calls after in-place edits of the same array object, earlier results re-compared after later calls) is "
             "executed on the real functions and compared bit-for-bit with an independently computed index map; because the "
             "operations are data-oblivious this decides the property for all values of those shapes. Beyond the bound: nothing.",
             "Trusted: NumPy indices/scatter, CPython. NumPy backend only.", "DESIGN.md §2 C01"),
@@ -22,7 +22,7 @@ CLAIMED = {
     "C03": ("runtime formula monitor on conversions/views of factorised tensors; rejection monitor for invalid sets",
             "Seeded factor sets for six formats (tuple and wrapper form, both tenalg backends) are converted by the real code and "
             "compared with the defining contraction; every unfolding/vec/matrix/slice view, wrapper shape/rank and factor-based "
-            "norm (CP, Tucker, TT, TR wrappers) is compared with the reference dense tensor, also after a core of a wrapper was replaced by item "
+            "norm (CP, Tucker, TT, TR wrappers) is compared with the reference dense tensor, also after a core / the factors, weights or core of a wrapper were replaced by item "
             "assignment; 16 kinds of invalid sets must raise ValueError/IndexError. Sampled, small sizes.",
             "Trusted: numpy.einsum, explicit index-map unfolding.", "DESIGN.md §2 C03"),
     "C04": ("runtime before/after monitor: dense reconstruction preserved + canonical-form predicates on real transforms",
@@ -38,11 +38,11 @@ CLAIMED = {
     "C12": ("runtime postcondition monitor on prox returns: reference minimiser, KKT/feasibility, idempotence, firm non-expansiveness, competitor search",
             "Seeded inputs in eight value classes x 14 operators x parameters; every returned point is judged against an independent "
             "exact reference (closed forms, sort-based simplex, PAVA, exact unimodal regression, LAPACK SVD), for every memory layout, "
-            "read-only and integer-dtype presentation of the input, and against random "
+            "read-only and (un)signed integer-dtype presentation of the input, and against random "
             "feasible competitors; projections re-applied; convex operators tested for firm non-expansiveness. Sampled, sizes <= 8x4.",
             "Trusted: the harness' reference algorithms (cross-checked by the competitor search), numpy.linalg.", "DESIGN.md §2 C12"),
     "C13": ("runtime KKT-certificate monitor on solver returns + objective gap to an independent NNLS reference",
-            "Seeded well-conditioned problems with planted active/inactive constraints, cold and warm starts and l1/ridge penalties "
+            "Seeded well-conditioned problems with planted active/inactive constraints, cold, warm and far-away warm starts and l1/ridge penalties "
             "(private copies or shared read-only arrays, optionally after an aborted solve on the same arrays; ADMM with non-zero duals) "
             "are solved by the real HALS/FISTA/active-set/ADMM code under explicit budgets; each returned point gets a per-input "
             "optimality certificate (non-negativity, KKT from independent UtU/UtM, objective vs scipy NNLS). Convergence is "
@@ -52,12 +52,12 @@ CLAIMED = {
             "Seeded regression problems are fitted by the real estimators; predictions on training and unseen data are compared with "
             "the contraction of the exposed weight tensor, the weight tensor with the reconstruction of the exposed factors and its "
             "vectorisation, also after a re-fit aborted by a failpoint in the sweep; CP-PLSR is checked for transform==scores (X and Y scores, "
-            "twice, inputs untouched), unit loadings, constant-shift invariance and sample-permutation equivariance by re-fitting. Sampled.",
+            "twice, inputs untouched), unit loadings, constant-shift invariance (offsets up to 1e6 times the spread) and sample-permutation equivariance by re-fitting, long modes (> 500) included. Sampled.",
             "Trusted: numpy.einsum. CP-PLSR relations asserted on generic data to 1e-6 relative.", "DESIGN.md §2 C19"),
     "C20": ("runtime optimality monitor: brute force over all R! matchings; invariance and definition checks on real metric calls",
             "Seeded factor sets (generic, near-copies, permuted+rescaled copies with all permutations for R<=4) are scored by the real "
             "metrics; the returned score is compared with the maximum over all matchings, the returned permutation must attain it and "
-            "recover planted permutations; correlation index range/zero-iff-equivalent/definition; error metrics vs definitions over "
+            "recover planted permutations (references as objects, tuples or objects grown in place); correlation index range/zero-iff-equivalent/definition/invariance to pre-normalised sets; error metrics vs definitions over "
             "axis arguments; leverage scores a float64 distribution; zero columns rejected. Sampled, R <= 6.",
             "Trusted: exhaustive enumeration of matchings, NumPy definitions.", "DESIGN.md §2 C20"),
     "C06": ("iterate recorders (deterministic prefix runs + deep-copying callbacks) with from-scratch error recomputation",
@@ -78,27 +78,27 @@ CLAIMED = {
     "C08": ("runtime structural postcondition monitor on returned decomposition objects, on both stopping paths",
             "Seeded configurations over 10 decomposition entry points, rank specifications (int/list/'same'/fraction), initialisations, "
             "iteration caps 0..K and tolerances that force convergence stops; shapes vs independently derived ranks, boundary ranks, "
-            "orthonormality, core = projection, TT left-orthogonality, PARAFAC2 projections/cross-products and the normalisation "
+            "orthonormality, core = projection (also from non-orthonormal user starts), TT left-orthogonality, PARAFAC2 projections/cross-products and the normalisation "
             "contract are checked on every returned object. Sampled, orders 2-5.",
-            "Trusted: independent rank derivations for int/list specs; validate_*_rank for 'same'/fractions.", "DESIGN.md §2 C08"),
+            "Trusted: independent rank derivations for int/list specs and the harness' own bisection for 'same'/fractions.", "DESIGN.md §2 C08"),
     "C09": ("runtime error-bound monitor: decomposition error vs independently computed singular-value tails of the input's unfoldings",
             "Seeded tensors (generic, exactly low multilinear/TT rank, rank-deficient, integer; orders 2-5) x rank vectors from all-ones "
             "to beyond the mode sizes x exact SVD methods x HOOI sweeps x every TR start mode; the squared error of the real "
-            "decomposition must be ~0 when no tail is discarded, at most the sum of discarded tails and at least the largest single "
-            "tail (using the returned ranks), and returned ranks never exceed requested ones. Data in extreme units, complex data and a few "
+            "decomposition must be ~0 when the requested ranks discard no tail, at most the sum of the tails they discard and at least the largest single "
+            "tail of the returned ranks, and returned ranks never exceed requested ones; partial_tucker on any subset of modes and square symmetric/skew unfoldings included. Data in extreme units, complex data and a few "
             "large unfoldings (hundreds of rows and columns) included. Sampled.",
             "Trusted: numpy.linalg.svd (float64) of explicit unfoldings; the Tucker/TT quasi-optimality theorems.", "DESIGN.md §2 C09"),
     "C10": ("runtime postcondition monitor (>= 0, no NaN, no slack) on returned factors/weights/core + live monitors on the inner NNLS solvers",
             "Seeded configurations of the six non-negative algorithms on signed / non-negative / sparse / integer / all-negative tensors "
             "with SVD, random and non-negative user initialisations, normalisation, sparsity, partial non-negativity and iteration "
-            "caps 0..12; every declared array of every returned object is checked, and hals_nnls / fista / active_set_nnls / "
+            "caps 0..12, dictionary keys counted from either end, one estimator fitted on tensors of different orders; every declared array of every returned object is checked, and hals_nnls / fista / active_set_nnls / "
             "make_svd_non_negative are wrapped (identity re-binding) so their returns are checked while those runs execute.",
             "No slack: -1e-300 or NaN is a violation. PARAFAC2 mode 1 exempt as documented.", "DESIGN.md §2 C10"),
     "C11": ("runtime feasibility monitor on the factors returned by constrained_parafac / ConstrainedCP; rejection monitor for double constraints",
-            "Seeded configurations over all 8 hard constraint kinds x scalar / list / list-with-holes / dict specifications over subsets of "
+            "Seeded configurations over all 8 hard constraint kinds x scalar / list / list-with-holes / dict (any key order, a parameter per mode) specifications over subsets of "
             "modes, mixed kinds on disjoint modes, signed and non-negative data, SVD/random/user inits and outer/inner budgets "
             "{0,1,3,10}x{1,3,10}; every constrained, updated mode of every returned CP tensor is tested against the operator's "
-            "documented set; requests constraining a mode twice must raise ValueError. Sampled, orders 3-4.",
+            "documented set; requests constraining a mode twice must raise ValueError at every budget, start and entry point. Sampled, orders 3-4.",
             "Order relations with no slack; sums/norms with slack scaled to the data magnitude.", "DESIGN.md §2 C11"),
     "C14": ("runtime differential monitor: zero-budget result vs init tensor, weighted vs weight-absorbed starts, bitwise fixed-mode comparison",
             "Seeded user initialisations (unit / positive / negative / mixed weights; tuple, list and wrapper forms) for the seven "
@@ -116,7 +116,7 @@ CLAIMED = {
             "boundary inside tensorly: every result must equal the call made alone. Vacuity guard: the output must change with seed+1 (counted).",
             "Bitwise comparison of every array reachable from the return value.", "DESIGN.md §2 C16"),
     "C18": ("dtype tracer on every array reachable from return values",
-            "113 entry points (tensor algebra, conversions/transforms, SVD routes, 34 decomposition configurations incl. masks of another dtype, "
+            "115 entry points (tensor algebra, conversions/transforms, SVD routes, 34 decomposition configurations incl. masks of another dtype, "
             "14 proximal operators, NNLS/ADMM solvers incl. the active-set restart path, regressors, random generators, initialisers, contrib "
             "decompositions, estimator classes, wrapper methods, preprocessing, metrics) are called with float32, float64 and (where "
             "conjugation is handled) complex128 inputs over seeded shapes/options; every floating array or NumPy scalar reachable "
@@ -124,8 +124,8 @@ CLAIMED = {
             "Documented exemptions only (leverage scores float64, integer outputs, Python floats).", "DESIGN.md §2 C18"),
     "C17": ("history recording at the API boundary checked step-by-step against an executable non-deterministic reference model; bounded-exhaustive "
             "operation sequences + random histories + free-running stress with yield injection",
-            "Worker threads execute set_backend / backend_context enter / exit (normal and by exception) / rejected selections and rejected context entries one operation "
-            "at a time under a controller; after every operation all threads report the backend they see, its identity and the instance "
+            "Worker threads execute set_backend / backend_context enter / exit (normal, by exception, newest- or oldest-first; a third of the operations inside a contextvars.Context.run callback) / rejected selections and rejected context entries one operation "
+            "at a time under a controller; after every operation all threads report the backend they see (also under a copy of the acting thread's execution context), its identity and the instance "
             "that executed a dispatched call; the set of model states consistent with all observations must stay non-empty. All sequences "
             "up to length 4 (quick) / 5 (thorough) over 2 threads x 2 backends for both managers, random histories over 3 threads x 3 "
             "backends, cross-manager independence, and stress runs (switch interval 1e-6, sys.monitoring LINE yields inside set_backend, "
